@@ -52,6 +52,13 @@ SCENARIOS = {
     'kill-while-paused': {'program': MAIN, 'schedule': [['tick', 1], ['pause', 'pm'], ['tick', 2], ['kill', 'k']]},
     'kill-while-paused-created': {'program': ASYNC, 'schedule': [['pause', 'p0'], ['tick', 1], ['kill', 'k']]},
     'callback-while-paused': {'program': {'steps': [S([['soon', 'ok', 'c1'], ['call', 'pause', 'sp']], ['continue', 1, [], {}]), S([['out', 'x', 1]], ['value', 2])]}, 'schedule': [['tick', 3], ['play']]},
+    # a request made by a listener or a hook during a transition, and a later hook of the same transition fails
+    'listener-kill-on-running': {'program': MAIN, 'schedule': [], 'listener': [{'on': 'on_process_running', 'occ': 1, 'do': ['kill', 'lk']}]},
+    'listener-kill-on-running2': {'program': MAIN, 'schedule': [], 'listener': [{'on': 'on_process_running', 'occ': 2, 'do': ['kill', 'lk']}]},
+    'listener-kill-on-waiting': {'program': MAIN, 'schedule': [], 'listener': [{'on': 'on_process_waiting', 'occ': 1, 'do': ['kill', 'lk']}]},
+    'listener-pause-on-waiting': {'program': MAIN, 'schedule': [['tick', 3], ['play'], ['tick', 1], ['resume', 7]], 'listener': [{'on': 'on_process_waiting', 'occ': 1, 'do': ['pause', 'lp']}]},
+    'hook-kill-in-on-run': {'program': ASYNC, 'schedule': [], 'hooks': [{'hook': 'on_run', 'occ': 2, 'pos': 'pre', 'do': ['kill', 'hk']}]},
+    'hook-kill-in-on-wait': {'program': MAIN, 'schedule': [], 'hooks': [{'hook': 'on_wait', 'occ': 1, 'pos': 'post', 'do': ['kill', 'hk']}]},
 }
 
 CONSTRUCT = {('on_create', 1), ('on_entering', 1), ('on_entered', 1)}
@@ -60,7 +67,7 @@ REQUESTER = ('on_pausing', 'on_paused', 'on_playing')
 
 def _dry(scn):
     """Fault-free run of the scenario: hook / notification counts and the reference outcome."""
-    case = {'program': scn['program'], 'schedule': scn.get('schedule', []), 'listener': scn.get('listener', [])}
+    case = {'program': scn['program'], 'schedule': scn.get('schedule', []), 'listener': scn.get('listener', []), 'hooks': scn.get('hooks', [])}
     with Exec(case) as ex:
         ex.start()
         ex.run_schedule()
@@ -114,7 +121,12 @@ def enumerate_cases(tier, scope):
 def _cases(draw, tier):
     prog = draw(gen.programs(max_steps=4, self_calls=('pause', 'play', 'kill'), soon=True, soon_modes=('ok',), endings=('value', 'unsuccessful', 'kill')))
     sched = draw(gen.control_schedules(['pause', 'play', 'kill', 'resume', 'open'], max_events=3, max_gap=3)) if draw(st.booleans()) else []
-    return {'scenario': {'program': prog, 'schedule': sched}, 'pick': draw(st.integers(0, 10**6))}
+    scn = {'program': prog, 'schedule': sched}
+    if draw(st.integers(0, 3)) == 0:
+        scn['listener'] = draw(gen.listener_plans(['kill', 'pause', 'play'], max_plans=1))
+    elif draw(st.integers(0, 3)) == 0:
+        scn['hooks'] = [h for h in draw(gen.hook_plans(['kill', 'pause', 'play'], max_plans=1)) if h['do'][0] != 'fail']
+    return {'scenario': scn, 'pick': draw(st.integers(0, 10**6))}
 
 
 def strategy(tier):
@@ -143,7 +155,7 @@ def execute(case):
     def v(clause, detail):
         viol.append({'clause': clause, 'detail': f'{_fname(fault)}: {detail}'})
 
-    run_case = {'program': scn['program'], 'schedule': scn.get('schedule', []), 'listener': scn.get('listener', [])}
+    run_case = {'program': scn['program'], 'schedule': scn.get('schedule', []), 'listener': scn.get('listener', []), 'hooks': scn.get('hooks', [])}
     with Exec(run_case) as ex:
         w = ex.world
         if 'listener' in fault:
